@@ -179,7 +179,7 @@ def phase_name(p):
 
 
 # ------------------------------------------------------------------------------------------------ ThreadSanitizer pass
-def tsan_run(bins, mode, reps, tmp, limit=300):
+def tsan_chunk(bins, mode, reps, limit):
     env = dict(os.environ)
     env["TSAN_OPTIONS"] = "exitcode=66 halt_on_error=0 report_signal_unsafe=0 history_size=4"
     cmd = [bins["tsan"], mode, str(reps)]
@@ -198,6 +198,29 @@ def tsan_run(bins, mode, reps, tmp, limit=300):
         sys.exit(2)
     return dict(mode=mode, runs=int(m.group(1)) if m else 0, reports=r.stderr.count("WARNING: ThreadSanitizer"),
                 summaries=summ, wrong=wrong.strip(), timeout=False, stderr=r.stderr)
+
+
+def tsan_run(bins, mode, reps, tmp, limit=300):
+    """the free-running pass in chunks of 2 repetitions (30 runs), so that an overloaded machine yields a partial result
+    instead of none; stops at `reps` repetitions or after `limit` seconds"""
+    t0 = time.time()
+    acc = dict(mode=mode, runs=0, reports=0, summaries=[], wrong="", timeout=False, stderr="", wanted_runs=reps * 15)
+    done = 0
+    while done < reps and time.time() - t0 < limit:
+        n = min(2, reps - done)
+        t = tsan_chunk(bins, mode, n, max(30, min(150, limit - (time.time() - t0))))
+        if t["timeout"]:
+            acc["timeout"] = True
+            break
+        done += n
+        acc["runs"] += t["runs"]
+        acc["reports"] += t["reports"]
+        acc["summaries"] = sorted(set(acc["summaries"]) | set(t["summaries"]))
+        acc["wrong"] = acc["wrong"] or t["wrong"]
+        acc["stderr"] = (acc["stderr"] + t["stderr"])[:20000]
+        if t["wrong"]:
+            break
+    return acc
 
 
 def tsan_key(t):
@@ -239,8 +262,8 @@ def _run(ctx, bins, tmp):
 
     # ---- ThreadSanitizer pass, free-running, in the background of the exploration
     tsan_pool = cf.ThreadPoolExecutor(3)
-    tsan_reps = 4 if ctx.quick else 30
-    tsan_limit = 100 if ctx.quick else 400
+    tsan_reps = 4 if ctx.quick else 16
+    tsan_limit = 60 if ctx.quick else 400
     tsan_fut = [tsan_pool.submit(tsan_run, bins, m, tsan_reps, tmp, tsan_limit) for m in MODES]
 
     # ---- exploration, bound by bound
@@ -260,12 +283,13 @@ def _run(ctx, bins, tmp):
             continue
         # will it fit?  cost grows by a measured factor from one bound to the next
         if bound >= 3:
-            prev_cpu = sum(per[cfg_name(c)][bound - 1]["cpu"] for c in sel)
+            # predicted executions (measured growth from the two bounds below) / best measured throughput of this run
             e1 = sum(per[cfg_name(c)][bound - 1]["executions"] for c in sel)
             e2 = sum(per[cfg_name(c)][bound - 2]["executions"] for c in sel)
-            growth = max(4.0, min(60.0, e1 / max(e2, 1)))
-            par = max(1.0, min(common.NCPU, history[-1][0] / max(history[-1][1], 1e-3)))
-            est = prev_cpu * sum(growth ** (i + 1) for i in range(len(bounds))) / par * 1.5 + 2
+            growth = max(3.0, min(60.0, e1 / max(e2, 1)))
+            predicted = sum(e1 * growth ** (i + 1) for i in range(len(bounds)))
+            rate = max([h[0] / h[1] for h in history if h[1] > 5] or [max(h[0] / max(h[1], 0.1) for h in history)])
+            est = predicted / rate * 1.4 + 5
         else:
             est = 1
         if est > ctx.deadline.left() - (15 if ctx.quick else 60):
@@ -288,7 +312,7 @@ def _run(ctx, bins, tmp):
             break
         cpu = sum(r["cpu"] for r in res)
         execs = sum(r["executions"] for r in res)
-        history.append((cpu, wall))
+        history.append((execs, wall))
         for c, bound in [(c, b) for b in bounds for c in sel]:
             mine = [r for r in res if r["cfg"] is c and r["bound"] == bound]
             if not mine or any(v["cfg"] is c for v in raw_viol):
@@ -429,9 +453,10 @@ def _run(ctx, bins, tmp):
     tsan = [f.result() for f in tsan_fut]
     tsan_pool.shutdown()
     for t in tsan:
-        if t["timeout"]:
-            assumptions.append("ThreadSanitizer pass for mode %s did not finish within %d s (overloaded machine, or the free-running bodies hang)" % (t["mode"], tsan_limit))
-            continue
+        if t["timeout"] or t["runs"] < t["wanted_runs"]:
+            assumptions.append("ThreadSanitizer pass for mode %s: %d of %d free-running runs done within %d s%s" % (
+                t["mode"], t["runs"], t["wanted_runs"], tsan_limit,
+                " (a chunk of 30 runs did not end: overloaded machine, or the free-running bodies hang)" if t["timeout"] else ""))
         if t["reports"] or t["wrong"]:
             # free-running: whether the race window is hit varies from run to run; confirm = seen again in 2 of up to 4 longer runs
             seen = []
@@ -459,10 +484,11 @@ def _run(ctx, bins, tmp):
     preempted = sum(per[n][top[n]]["preempted"] for n in per)
     classes = sum(per[n][top[n]]["interleaving_classes"] for n in per)
     outcomes = sum(len(per[n][top[n]]["outcomes"]) for n in per)
-    groups = {}
+    groups = {"base grid": {}, "extra configurations": {}}
     for c in cfgs:
-        g = "%s workers=%d" % (c["mode"], c["workers"])
-        groups[g] = min(groups.get(g, 99), done_bound.get(cfg_name(c), -1))
+        g = groups["base grid" if c["base"] else "extra configurations"]
+        k = "%s workers=%d" % (c["mode"], c["workers"])
+        g[k] = min(g.get(k, 99), done_bound.get(cfg_name(c), -1))
     table = {}
     for n in sorted(per):
         table[n] = {"bound %d" % b: {k: v for k, v in m.items() if k not in ("obsfiles", "cpu", "outcomes", "shards")} |
